@@ -1,10 +1,91 @@
-"""Counting contracts for numpy code in lcm.state_space (C17)."""
-from ..ctx import Undecided
+"""numpy counting operations used by lcm.state_space.create_indexers_and_segments (C17).
+
+`count_nonzero(a)` is the number K of True entries of the mask selector of `a` (the same abstract
+order isomorphism as boolean indexing); `cumsum` of a flattened boolean array is rank + 1 at True
+positions; `np.repeat(arange(m), counts)` is given a sound but incomplete contract (sorted, values in
+[0, m), only rows with a positive count occur): the clause that needs the exact multiplicities is
+checked by a bounded stand-in, not proved (DESIGN 6/C17).
+"""
+
+from __future__ import annotations
+
+import z3
+
+from ..ctx import Undecided, cur
+from ..indexing import mask_selector
+from ..values import SymArray, T, asarray, conc, inrange, pydim, reshape, rowmajor, unwrap0
+from .jnp_impl import _axes, _fn, _forall, _merge
 
 
 def count_nonzero(a, axis=None):
-    raise Undecided("np.count_nonzero (C17 counting contracts not loaded)")
+    ctx = cur()
+    a = asarray(a)
+    if a._dtype != "bool":
+        raise Undecided("count_nonzero of a non-boolean array")
+    if axis is None:
+        ms = mask_selector(a)
+        ctx.trusted.add("np.count_nonzero (number of True entries = extent of boolean-mask selection)")
+        return pydim(ms.K)
+    red = _axes(a, axis)
+    batch = tuple(x for x in range(a.ndim) if x not in red)
+    bshape = [a.zshape[x] for x in batch]
+    rshape = [a.zshape[x] for x in red]
+    nm = ctx.fresh("count")
+    C = _fn(nm, len(batch), z3.IntSort())
+    B = [z3.Int(f"{nm}.b{q}") for q in range(len(batch))]
+    R = [z3.Int(f"{nm}.r{q}") for q in range(len(red))]
+    N = rowmajor(rshape).N
+    full = _merge(batch, red, B, R, a.ndim)
+    ax = [
+        _forall(B, z3.Implies(inrange(bshape, B), z3.And(C(*B) >= 0, C(*B) <= N)), dims=bshape),
+        _forall(B + R, z3.Implies(z3.And(inrange(bshape, B), inrange(rshape, R), a.get(full)), C(*B) >= 1), dims=bshape + rshape),
+    ]
+    for f in ax:
+        ctx.assume(f, tag="count_nonzero")
+    ctx.trusted.add("np.count_nonzero(axis) (sound, incomplete: 0 <= count <= extent, >= 1 if some entry is True)")
+    out = SymArray(tuple(bshape), lambda idx: C(*idx), "int")
+    out.counts_of = a
+    return unwrap0(out)
+
+
+def cumsum_flat(a):
+    """a.cumsum() of a boolean array (flattened, inclusive): rank + 1 at True positions"""
+    ctx = cur()
+    a = asarray(a)
+    if a._dtype != "bool":
+        raise Undecided("cumsum of a non-boolean array")
+    ms = mask_selector(a)
+    rm = rowmajor(a.zshape)
+    nm = ctx.fresh("cumsum")
+    other = z3.Function(nm + ".at-false", z3.IntSort(), z3.IntSort())
+    ctx.trusted.add("cumsum of a boolean array = (number of True entries before) + 1 at True positions")
+
+    def get(idx):
+        p = idx[0]
+        u = rm.unravel(p)
+        return z3.If(a.get(tuple(u)), ms.rank(u) + 1, other(p))
+
+    return SymArray((rm.N,), get, "int")
 
 
 def np_repeat(x, repeats):
-    raise Undecided("np.repeat with array repeats (C17 counting contracts not loaded)")
+    ctx = cur()
+    x, reps = asarray(x), asarray(repeats)
+    if x.ndim != 1 or reps.ndim != 1:
+        raise Undecided("np.repeat on n-d arrays")
+    m = x.zshape[0]
+    nm = ctx.fresh("repeat")
+    L = z3.Int(nm + ".len")
+    src = z3.Function(nm + ".src", z3.IntSort(), z3.IntSort())
+    p, q = z3.Int(nm + ".p"), z3.Int(nm + ".q")
+    ax = [
+        L >= 0,
+        _forall([p], z3.Implies(z3.And(p >= 0, p < L), z3.And(src(p) >= 0, src(p) < m, reps.get((src(p),)) >= 1)), patterns=[src(p)]),
+        _forall([p, q], z3.Implies(z3.And(0 <= p, p <= q, q < L), src(p) <= src(q)), patterns=[z3.MultiPattern(src(p), src(q))]),
+    ]
+    for f in ax:
+        ctx.assume(f, tag="np.repeat")
+    ctx.trusted.add("np.repeat(x, counts) (sound, incomplete: sorted source positions, only rows with a positive count)")
+    out = SymArray((L,), lambda idx: x.get((src(idx[0]),)), x._dtype)
+    out.mutable = True
+    return out
